@@ -979,21 +979,16 @@ def check_clear_parts(rep, fl, rule="R11.1"):
     facts = fl.facts
     # R11.2 policy.clear, store.clear
     check_policy_clear(rep, fl)
+    # one pass over self.shards, every round clears write(shard) (`for_each` closure or `for` loop)
     sb = facts.body(SM + "::clear")
-    r = None
-    for bi, t in calls_to(sb, "Iterator::for_each"):
-        c = closure_of_call(sb, t)
-        if c:
-            r = (bi, t, facts.closure_body(c[0][1]))
-    ok = r is not None
+    it = single_iteration(facts, sb)
+    ok = it is not None and iterates(it, F(V("self"), "shards"))
     if ok:
-        bi, t, cb = r
-        recv = norm(sb.call_args(t)[0])
-        cl = [(x, tt) for x, tt, m in props_store.map_calls(cb, props_store.SHARD_TY, "clear")]
-        ok = is_call(recv, "iter") and norm(recv[2][0]) == norm(F(V("self"), "shards")) and len(cl) == 1 and must_pass_through(cb, [cl[0][0]])
+        cl = [(x, tt) for x, tt, m in props_store.map_calls(it.body, props_store.SHARD_TY, "clear") if x in it.region]
+        ok = len(cl) == 1 and it.every_round([cl[0][0]])
         if ok:
-            g = norm(cb.call_args(cl[0][1])[0])
-            ok = is_call(g, "RwLock::write") and g[2][0] == V(cb.local_name.get(2, "arg2"))
+            g = it.indexed(it.body.call_args(cl[0][1])[0])
+            ok = is_call(g, "RwLock::write") and norm(g[2][0]) == ("index", norm(F(V("self"), "shards")), ("elem",))
     rep.check(ok, "R11.2", fl, sb, "all shards", "store.clear() clears every shard under its write lock", "store.clear() does not clear every shard")
 
 
@@ -1088,7 +1083,7 @@ def check_handle_item_pairing(rep, fl, rule="R06.2", collisions=True, only_sites
             rep.notes.extend(tmp.notes)
         return
     facts = fl.facts
-    hi = fl.proc_fn("handle_item")
+    hi = facts.flat(fl.proc_fn("handle_item"))   # `for victim in victims` and `victims.into_iter().try_for_each(..)` alike
     at, entry = dataflow(hi)
     adds = calls_to(hi, fl.policy + "::add")
     ins = calls_to(hi, SM + "::try_insert")
@@ -1125,19 +1120,14 @@ def check_handle_item_pairing(rep, fl, rule="R06.2", collisions=True, only_sites
             vic_rm = (bi, t, a)
     ok = vic_rm is not None
     if ok:
-        elem = vic_rm[2][1][1]
-        ok = elem[0] == "field" and elem[1][0] == "downcast" and is_call(elem[1][1], "Iterator::next") and vic_rm[2][2] == ("const", 0, "u64")
-        # iterates the victim vector returned by add
-        it = elem[1][1][2][0]
-        src = var_def_exprs(hi, it)
-        ok = ok and len(src) == 1 and is_call(src[0], "IntoIterator::into_iter") and mentions(norm(hi.expand(src[0])), victims)
-        # per element unavoidable
-        for bi in hi.live_blocks():
-            t = hi.term(bi)
-            if t and t["k"] == "switch":
-                for tgt, atom, pol in edge_literals(hi, bi):
-                    if atom is not None and atom[0] == "variant" and atom[2] == "Some" and is_call(norm(hi.expand(atom[1])), "Iterator::next"):
-                        ok = ok and must_pass_through(hi, [vic_rm[0]], from_bi=tgt)
+        # one iteration over the victim vector returned by add (a `for` loop, for_each or try_for_each alike); in
+        # every round the element's key is removed from the store with the wildcard conflict 0
+        its = [i_ for i_ in iterations(hi) if mentions(norm(hi.expand(i_.source)), victims)]
+        ok = len(its) == 1
+        if ok:
+            it_ = its[0]
+            ok = it_.canon(hi.call_args(vic_rm[1])[1]) == ("field", ("elem",), "key") and vic_rm[2][2] == ("const", 0, "u64") and \
+                vic_rm[0] in it_.region and must_pass_through(hi, [vic_rm[0]], from_bi=it_.some)
     rep.check(ok, rule, fl, hi, "victim => try_remove(victim.key, 0)", "every victim returned by policy.add is removed from the store", "a victim evicted by the policy is not removed from the store: an entry stays resident without charge")
     # the victim list is looked at on *every* path after policy.add, admitted or not: add() can
     # return victims together with `added == false` (it evicts one by one and rejects later)
